@@ -46,7 +46,17 @@ def snapshot(est, syms_inv):
             "symbolic_model_id": (None if p["symbolic_model"] is None else
                                   [sorted(str(s) for s in p["symbolic_model"].state), sorted(str(s) for s in p["symbolic_model"].control),
                                    sorted((str(k), str(v)) for k, v in p["symbolic_model"].state_model.items())]),
-            "config": None if cfg is None else {f.name: (getattr(cfg, f.name) if f.name != "python_modules" else "modules") for f in dataclasses.fields(python.Config)}}
+            "config": None if cfg is None else {f.name: (getattr(cfg, f.name) if f.name != "python_modules" else modules_token(cfg.python_modules)) for f in dataclasses.fields(python.Config)},
+            "config_type": None if cfg is None else type(cfg).__name__}
+
+
+def modules_token(mods):
+    """the default module list is the token "modules"; any other value is spelled out"""
+    def one(m):
+        return m if isinstance(m, str) else ("dict:" + ",".join(sorted(m)) if isinstance(m, dict) else type(m).__name__)
+    desc = "|".join(one(m) for m in mods)
+    default = "|".join(one(m) for m in python.DEFAULT_MODULES)
+    return "modules" if desc == default else "mods:" + desc
 
 
 def run_job(job):
@@ -105,7 +115,12 @@ def run_job(job):
     if job.get("ops"):
         tokens = {}
         res = []
-        est2 = python.SklearnEKFAdapter.Create(model, pn, sensors, sn, cm, config=python.Config(**job.get("config0", {})))
+        if job.get("config0_view"):
+            from formak import ui_state_machine as _sm
+            est2 = python.SklearnEKFAdapter.Create(model, pn, sensors, sn, cm, config=_sm.ConfigView(dict(job.get("config0", {}))))
+        else:
+            est2 = python.SklearnEKFAdapter.Create(model, pn, sensors, sn, cm, config=python.Config(**job.get("config0", {})))
+        out["ops_initial"] = snapshot(est2, None)
         for op in job["ops"]:
             r = {"op": op[0]}
             try:
@@ -121,6 +136,8 @@ def run_job(job):
                             kw[k] = python.Config(**v["config"])
                         elif isinstance(v, dict) and "noise" in v:
                             kw[k] = {syms[a]: b for a, b in v["noise"].items()}
+                        elif k == "python_modules":
+                            kw[k] = tuple(v)
                         else:
                             kw[k] = v
                     est2.set_params(**kw)
